@@ -164,7 +164,7 @@ def b5(e: Engine, rep: Report):
 
 
 def b1(e: Engine, rep: Report):
-    c = e.p.cls(QUEUE)
+    c = common.merged_class(e, QUEUE)
     refs_bounce, calls_factory = [], []
     for mname, m in c.methods.items():
         for n in walk_own(m.node):
@@ -405,7 +405,7 @@ def b3(e: Engine, rep: Report):
                               loc=n.loc(), reason='loop variables passed')
     # every _perm_fail anywhere in the queue quotes either the reply of its
     # own group or the reply carried by the whole-message exception
-    c = e.p.cls(QUEUE)
+    c = common.merged_class(e, QUEUE)
     nsites = 0
     for mname, m in sorted(c.methods.items()):
         handler_names = {h.name for h in ast.walk(m.node)
@@ -478,7 +478,7 @@ def b4_configured(e: Engine, rep: Report):
     chosen by truthiness (a Queue is a Greenlet, which is falsy until it is
     started and again once it has finished)."""
     from .. import tables
-    c = e.p.cls(QUEUE)
+    c = common.merged_class(e, QUEUE)
     init = c.methods.get('__init__')
     if init is None:
         rep.error('anchor vanished: Queue.__init__')
